@@ -2,7 +2,9 @@ import StraxModel.Lemmas.Contract
 /-
   C12 — outputs that violate a plugin's declared contract are rejected, not stored.
 
-  One theorem per violation kind, each for ALL inputs of its class, over the model of the code as it
+  27 theorems: 19 full-strength (one or more per violation kind, each for ALL inputs of its class),
+  3 `_partial` (the storage half, single-thread processor only), 5 concrete witnesses (`*_accepted_old`,
+  `row_outside_chunk_counterexample_501`, `gap_in_target_stored_eager_counterexample`), over the model of the code as it
   is now (`Model/Contract.lean`): D2 fixed (the constructor compares the declared dtype with the
   dtype of the data), chunk results dtype-checked in `_fix_output`, label and dtype checked per
   yielded chunk by the down-chunking plugin.  The `_old` theorems are `decide`-witnesses of what the
@@ -373,13 +375,6 @@ theorem gap_in_target_not_stored_single_thread_partial (rid : String) (cs : List
     rw [heq.2]; exact (gap_or_overlap_in_target_rejected rid cs hp hb).1
   exact ⟨process_error_not_visible contStep _ {} sv _ herr, herr, heq.1⟩
 
-/-- consumer-side continuity check on bare `[start, stop)` pairs (what the driver op `c12.process`
-and the check component `saver_protocol` use) -/
-def contCheck (last : Option Int) (c : Int × Int) : Except Err (Option Int) :=
-  match last with
-  | some e => if c.1 = e then .ok (some c.2) else .error .valueError
-  | none => .ok (some c.2)
-
 /-- one concrete stream with a gap under the single-thread order of events -/
 example :
     (process contCheck none [.ok (0, 10), .ok (10, 20), .ok (21, 30), .ok (30, 40)] ({} : Saver (Int × Int))).1.visible = false := by
@@ -387,21 +382,12 @@ example :
 
 example : plainStream "r0" gapStream = true ∧ hasBreak gapStream = true := by decide
 
-/-- an eager pipeline lets the saver run ahead of the consumer: it sees the whole stream and its
-regular end before the consumer has checked anything -/
-def processEager (check : σ → α → Except Err σ) (st : σ) (outs : List (Except Err α)) (sv : Saver α) :
-    Saver α × Option Err :=
-  match outs.find? (fun o => !o.toBool) with
-  | some (.error e) => (sv.closeExc, some e)
-  | _ =>
-    let good := outs.filterMap fun o => match o with | .ok a => some a | .error _ => none
-    let sv := (good.foldl Saver.save sv).close
-    (sv, (process check st outs ({} : Saver α)).2.2)
-
 /-- OPEN FINDING F3 / D21 (why the three theorems above are `_partial`): with the saver ahead of
 the consumer, a target with a gap is stored as valid although the caller gets the `ValueError`.
-Reproduced on the real threaded_mailbox processor in eager mode (`allow_lazy=False` or
-`max_workers > 1`) with a consumer slower than the pipeline. -/
+`Contract.processEager` (saver ahead of the consumer) is tied by the check component
+`pipeline/eager-slow-consumer`: the real threaded_mailbox processor in eager mode
+(`allow_lazy=False` or `max_workers > 1`) with a consumer that waits until the pipeline has drained
+gives the same outcome (`err ValueError stored`). -/
 theorem gap_in_target_stored_eager_counterexample :
     let r := processEager contCheck none [.ok (0, 10), .ok (10, 20), .ok (21, 30), .ok (30, 40)] ({} : Saver (Int × Int))
     r.1.visible = true ∧ r.2 = some .valueError := by
